@@ -7,5 +7,5 @@ CONSTANTS
 INIT Init
 NEXT Next
 VIEW view
-INVARIANTS TypeOK SumIsCoded AvailableIsSum BlockPowerIsSigners MostVotedIsOracle OrderIndependent ReportBad EmitState
+INVARIANTS TypeOK SumIsCoded AvailableIsSum BlockPowerIsSigners MostVotedIsOracle ReportBad EmitState
 CHECK_DEADLOCK FALSE
